@@ -55,6 +55,9 @@ func Oracle(nsrc int, steps []Step) (string, int, string) {
 		if st.Panic != "" {
 			return "panic", si, "the cache panicked: " + st.Panic
 		}
+		if st.Mutated != "" {
+			return "held-record-mutated", si, "a record once handed to a caller must never change: " + st.Mutated
+		}
 		var list map[int]RecV
 		if !st.NoView {
 			list = map[int]RecV{}
